@@ -64,3 +64,103 @@ def delivered_items(rb: bytes):
         return tlv8.decode(rb, strict=False)
     except tlv8.TLVError:
         return None
+
+
+# ---- real transport drivers for the pairing exchanges (BLE pairing channel, CoAP endpoints) ---------------------------
+def run_ble_link(ctx, ch, char_uuid_name: str, gens, handle, wire_hook=None, fsize: int = 100, tlv_frag=None):
+    """Run pairing generator(s) through the real BLE pairing transport code
+    (aiohomekit.controller.ble.client.drive_pairing_state_machine -> _pairing_char_write -> char_write -> ble_request)
+    against the reference GATT accessory whose pairing characteristics answer with handle(items).
+    gens: list of callables(previous_result) -> generator.  Returns (result, delivered_reply_bytes)."""
+    from aiohomekit.controller.ble.client import drive_pairing_state_machine
+    from aiohomekit.model.characteristics import CharacteristicsTypes
+    from refimpl import ble_accessory as ba
+    from refimpl import hap, tlv8
+    from simkit import seams
+    from simkit.loop import SimLoop
+    from worlds.ble import LinkClient
+
+    seams.install_ble()
+    loop = SimLoop(max_iterations=300_000)
+    ctx.loop = loop
+    ident = hap.AccessoryIdentity("aa:bb:cc:dd:ee:0b", bytes(32))
+    acc = ba.BleAccessory(ident, {}, ba.standard_services([]), frag=ba.FragPolicy("max", chooser=ch))
+    delivered: list[bytes] = []
+    step = [0]
+
+    def echo(items, raw):
+        rb = tlv8.encode(handle(items))
+        if wire_hook is not None:
+            rb = wire_hook(step[0], rb)
+        step[0] += 1
+        delivered.append(rb)
+        return rb
+
+    acc.pairing_echo = echo
+    acc.tlv_frag_size = tlv_frag
+    out = {"res": None, "exc": None}
+    char = getattr(CharacteristicsTypes, char_uuid_name)
+
+    async def main():
+        client = LinkClient(ctx, acc, fsize)
+        try:
+            res = None
+            for g in gens:
+                res = await drive_pairing_state_machine(client, char, g(res))
+            out["res"] = res
+        except Exception as e:  # noqa: BLE001
+            out["exc"] = e
+
+    loop.run_sim(main())
+    if out["exc"] is not None:
+        out["exc"].delivered = delivered
+        raise out["exc"]
+    return out["res"], delivered
+
+
+def run_coap(ctx, ch, what: str, handle, wire_hook=None, pairing_data=None, pin=None, with_auth=False):
+    """Run pair-setup ('setup') or pair-verify ('verify') through the real CoAP transport code
+    (CoAPHomeKitConnection.do_pair_setup / do_pair_setup_finish / do_pair_verify) over the simulated aiocoap context.
+    Returns (result, delivered_reply_bytes)."""
+    from refimpl import tlv8
+    from simkit.loop import SimLoop
+    from worlds import coap as wcoap
+
+    loop = SimLoop(max_iterations=300_000)
+    ctx.loop = loop
+    acc, _rec = wcoap.standard_accessory(ch)
+    wcoap.CoapWorld(ctx, loop, acc)
+    delivered: list[bytes] = []
+    step = [0]
+
+    def endpoint(payload):
+        rb = tlv8.encode(handle(tlv8.decode(payload, strict=False)))
+        if wire_hook is not None:
+            rb = wire_hook(step[0], rb)
+        step[0] += 1
+        delivered.append(rb)
+        return rb
+
+    acc.post_pair_setup = endpoint
+    acc.post_pair_verify = endpoint
+    out = {"res": None, "exc": None}
+
+    async def main():
+        from aiohomekit.controller.coap.connection import CoAPHomeKitConnection
+
+        conn = CoAPHomeKitConnection(None, "fd00::c0", 5683)
+        try:
+            if what == "setup":
+                salt, pub = await conn.do_pair_setup(with_auth)
+                out["res"] = await conn.do_pair_setup_finish(pin, salt, pub)
+            else:
+                ok = await conn.do_pair_verify(pairing_data)
+                out["res"] = ("verified", conn.enc_ctx) if ok and conn.enc_ctx is not None else None
+        except Exception as e:  # noqa: BLE001
+            out["exc"] = e
+
+    loop.run_sim(main())
+    if out["exc"] is not None:
+        out["exc"].delivered = delivered
+        raise out["exc"]
+    return out["res"], delivered
